@@ -117,6 +117,7 @@ type Machine struct {
 	pcVars       map[*Term]bool
 	freeForks    int
 	fnCache      map[*ssa.Function]*fnInfo
+	freezeStop   map[interface{}]bool
 }
 
 func NewMachine(sh *Shared, solver *Solver) *Machine {
@@ -158,6 +159,7 @@ func (m *Machine) resetPath(prefix []int32, maxSteps int64) {
 	m.encMemo = nil
 	m.randCount = 0
 	m.pcVars = nil
+	m.freezeStop = nil
 }
 
 func (m *Machine) pos() string {
